@@ -274,14 +274,14 @@ Print Assumptions C15_generated_code_is_model.
 (* ... and so are the loops themselves (wave 4): Way.ApplyUpdatesUpTo and Relation.ApplyUpdatesUpTo
    (the whole loop with the notApplied slice and the error return), Way.LineString and
    Way.LineStringAt (three loops, the last an in-place compaction).  The two sorts are
-   sort.Sort on the two Less types.  With C15_generated_code_is_model every function the
+   one call of the package sort on the receiver, each with the order generated as gen_less_..  With C15_generated_code_is_model every function the
    theorems above talk about is regenerated from source (the consumer mputil.Group: next theorem). *)
 Theorem C15_generated_loops_are_model :
   (forall ns us t, gen_way_apply_updates_up_to ns us t = way_apply t ns us) /\
   (forall ms us t, gen_rel_apply_updates_up_to ms us t = rel_apply t ms us) /\
   (forall ns, gen_way_line_string ns = line_string ns) /\
   (forall ns us t, gen_way_line_string_at ns us t = line_string_at t ns us) /\
-  (calls_Updates_SortByIndex, calls_Updates_SortByTimestamp) = sort_calls_expected.
+  (sortform_Updates_SortByIndex, sortform_Updates_SortByTimestamp) = sort_calls_expected.
 Proof.
   split; [exact gen_way_apply_updates_up_to_ok|]. split; [exact gen_rel_apply_updates_up_to_ok|].
   split; [exact gen_way_line_string_ok|]. split; [exact gen_way_line_string_at_ok|exact gen_sort_calls].
@@ -332,7 +332,7 @@ Definition ex_nodes := [mkNode 1 1 7 1 1; mkNode 2 1 7 2 2; mkNode 3 2 8 3 3].
 Definition ex_updates :=
   [mkUpdate 0 3 30 4 30 31 true; mkUpdate 0 5 50 6 50 51 false;
    mkUpdate 1 2 10 3 20 21 false; mkUpdate 1 4 40 5 40 41 true].
-Definition ex_members := [mkMember 1 5 0 1 0 0 0 (-1); mkMember 0 6 2 1 0 5 6 0].
+Definition ex_members := [mkMember 1 5 0 1 0 0 0 (-1) 7; mkMember 0 6 2 1 0 5 6 0 0].
 
 Example C15_ex_hyps :
   fully_annotated ex_nodes = true /\ updates_ok 45 (length ex_nodes) ex_updates = true /\
@@ -362,7 +362,7 @@ Proof. repeat split; vm_compute; reflexivity. Qed.
 
 Example C15_ex_relation :
   rel_apply 45 ex_members ex_updates
-  = AOk [mkMember 1 5 0 3 4 30 31 1; mkMember 0 6 2 4 5 40 41 0] [mkUpdate 0 5 50 6 50 51 false].
+  = AOk [mkMember 1 5 0 3 4 30 31 1 7; mkMember 0 6 2 4 5 40 41 0 0] [mkUpdate 0 5 50 6 50 51 false].
 Proof. vm_compute. reflexivity. Qed.
 
 Example C15_ex_index_error :
